@@ -192,3 +192,6 @@ SUBCHECKS = [
              rule="helper-level knot_refinement with default / explicit / additional knot lists (incl. lists wholly inside the "
                   "first or last span); non-trivial = explicit list, or existing multiplicity >= 2, or density >= 2, or rows"),
 ]
+
+# coverage-guided tier (thorough only): (sub-check, libFuzzer runs per process, processes)
+FUZZ = [("helper", 20000, 3)]
